@@ -186,7 +186,8 @@ def _contractions(model: Model, L: RuleResult, table: Dict[str, ClassInfo]):
                 me, yp = fi.params()[:2]
                 env = {yp: ix.IX.atom("y", 1)}
                 for a_ in attrs:
-                    env["%s.%s" % (me, a_)] = ix.IX([("ax_%s_r" % a_), ("ax_%s_c" % a_)], [(ix.Fraction(1), ((a_, ("ax_%s_r" % a_, "ax_%s_c" % a_)),), frozenset())])
+                    # the matrices built from the 1-D grid SQuad accepts have no batch axes (they are indexed from the left: self.wk[-1])
+                    env["%s.%s" % (me, a_)] = ix.IX([("ax_%s_r" % a_), ("ax_%s_c" % a_)], [(ix.Fraction(1), ((a_, ("ax_%s_r" % a_, "ax_%s_c" % a_)),), frozenset())], False)
                 ev = ix.IndexEval(env)
                 ev.run(fi.node.body)
                 if ev.returned is None:
@@ -261,7 +262,7 @@ def _spline_plumbing(model: Model, B: RuleResult):
         me, yp = fi.params()[:2]
         env = {yp: ix.IX.atom("y", 1)}
         for a_ in ("wk", "wy", "spline_mat"):
-            env["%s.%s" % (me, a_)] = ix.IX.atom(a_, 2)
+            env["%s.%s" % (me, a_)] = ix.IX.atom(a_, 2, batched=False)
         ev = ix.IndexEval(env)
         spec = ix.IndexEval(env)
         try:
